@@ -444,6 +444,8 @@ func (w *_nodeRepr) Length() int64 {
 		return w.lengthMinusAbsents()
 	case schema.UnionRepresentation_Keyed:
 		return (*_node)(w).Length()
+	case schema.UnionRepresentation_Stringprefix:
+		return -1
 	case schema.UnionRepresentation_Kinded:
 		w = w.asKinded(stg, w.Kind())
 		return (*_node)(w).Length()
@@ -586,6 +588,13 @@ func (w *_nodeRepr) AsString() (string, error) {
 			}
 		}
 		return "", fmt.Errorf("AsString: %q is not a valid member of enum %s", s, w.schemaType.Name())
+	case schema.EnumRepresentation_Int:
+		return "", datamodel.ErrWrongKind{
+			TypeName:        w.schemaType.Name(),
+			MethodName:      "AsString",
+			AppropriateKind: datamodel.KindSet_JustInt,
+			ActualKind:      datamodel.Kind_String,
+		}
 	default:
 		return (*_node)(w).AsString()
 	}
